@@ -35,6 +35,7 @@ TRUSTED = [
     "hand-written models FV/Model/{PB,Bdd,Sat}.lean — fidelity to tools/rect/{pseudobool,satmanager}.py checked by this correspondence run, not proved",
     "the SAT solver (pysat / Minisat22): its answer is a parameter of the model's `solve`; `solve_sound` assumes it is correct",
     "memo of constructrobdd is keyed by serdat(data) in Python and by the data in the model: equal as long as variable names contain no ',' and do not start with '-'",
+    "the model has no recursion limit: CPython refuses (RecursionError inside getrobdd, before anything is posted) an inequality whose diagram is deeper than the interpreter's recursion limit (about 990 distinct variables by default); `encoding_ge_accepted` / `getRobdd_sem` speak about sizes below that limit",
     "harness (Python) and compiled Lean driver: parsing, printing, canonicalisation, comparison",
 ]
 
@@ -351,8 +352,6 @@ class Impl:
             except KeyError:
                 pass
             return
-        if len(us) > 12:
-            return
         s = Solver()
         try:
             self._exact(i, m, us, s)
@@ -369,7 +368,14 @@ class Impl:
                 if v not in m.ttable:
                     self.problems.append(("user_var_registered", {"mgr": i, "var": v}))
                     return
-            for bits in itertools.product((0, 1), repeat=len(us)):
+            if len(us) <= 12:
+                space = itertools.product((0, 1), repeat=len(us))
+            else:      # too many for all assignments: none / one / two / three true, near the ends and in the middle
+                n = len(us)
+                idx = sorted({0, 1, 2, 3, n // 2, n // 2 + 1, n - 3, n - 2, n - 1, 7 % n, 991 % n, 997 % n})
+                sets = [()] + [(a,) for a in idx] + [(a, b) for a in idx for b in idx if a < b][:40] + [(0, n // 2, n - 1)]
+                space = [[1 if j in st else 0 for j in range(n)] for st in sets]
+            for bits in space:
                 sig = dict(zip(us, bits))
                 got = s.solve(assumptions=[m.ttable[v] if b else -m.ttable[v] for v, b in sig.items()])
                 want = all(holds(c, sig) for c in self.posted[i])
@@ -457,9 +463,10 @@ def canon_state(mgr_strs, store_str, table):
     mmc = sorted(repr(((k[0], go(k[1]), go(k[2])), go(mm[k]))) for k in mm)
     ms = []
     for s in mgr_strs:
-        aux, vs, cod, cls, _ = parse_mgr(s)
+        aux, vs, cod, cls, mdl = parse_mgr(s)
         ms.append((aux, sorted(repr(canon_name(v, go)) for v in vs), sorted(repr(go(i)) for i in cod),
-                   sorted(repr(sorted((repr(canon_name(v, go)), sg) for v, sg in c)) for c in cls)))
+                   sorted(repr(sorted((repr(canon_name(v, go)), sg) for v, sg in c)) for c in cls),
+                   sorted((v, x) for v, x in mdl.items() if not v.startswith("robdd_"))))
     return nodes, mmc, ms
 
 
@@ -499,8 +506,10 @@ def gen_pb(rng, i, names):
         lt = [(rng.choice([1, 1, 1, 2, -1]), v, s) for (_, v, s) in rand_terms(rng, names, rng.randint(0, 6))]
     elif style < 0.9:
         lt = rand_terms(rng, names, rng.randint(0, 6))
-    else:                # larger coefficients (exercise the decomposition)
+    elif style < 0.95:   # larger coefficients (exercise the decomposition)
         lt = rand_terms(rng, names, rng.randint(1, 5), -9, 23)
+    else:                # area-like coefficients as posted by rect.py: 1e3 … 1e4 on a few variables
+        lt = [(rng.choice([1, 1, 1, -1]) * rng.randint(1000, 10000), v, s) for (_, v, s) in rand_terms(rng, names, rng.randint(2, 5))]
     rt = rand_terms(rng, names, rng.choice([0, 0, 0, 1, 2]))
     lc = rng.choice([0, 0, 0, 1, -1, 2])
     lo = lc + sum(c for (c, _, _) in lt if c < 0) - sum(c for (c, _, _) in rt if c > 0)
@@ -558,7 +567,8 @@ def gen_related(rng, i, earlier):
 def gen_rich(rng, i, names):
     """a weighted at-least constraint over 4–6 variables with the bound in the middle of its range (a genuine diagram)"""
     vs = rng.sample(names, min(len(names), rng.randint(4, 6)))
-    lt = [(rng.choice([1, 1, 1, 2, 2, 3]), v, rng.choice([1, 1, 1, 0])) for v in vs]
+    big = rng.random() < 0.2
+    lt = [(rng.randint(1000, 10000) if big else rng.choice([1, 1, 1, 2, 2, 3]), v, rng.choice([1, 1, 1, 0])) for v in vs]
     tot = sum(c for (c, _, _) in lt)
     return ("pb", i, rng.random() < 0.3, ">=", lt, 0, [], max(2, tot // 2 + rng.choice([-1, 0, 0, 1])))
 
@@ -586,7 +596,7 @@ def gen_pbx(rng, i, pool):
     return ("pbx", i, rng.random() < 0.5, o, left, right, direct)
 
 
-def gen_history(rng, big: bool):
+def gen_history(rng, big: bool, long: bool = False):
     nm = rng.choice([1, 1, 2, 2, 3])
     nus = [rng.choice([2, 3, 3, 4, 4, 5, 6, 7, 8]) if not (big and j == 0) else rng.choice([10, 11, 12]) for j in range(nm)]
     shared = rng.random() < 0.5     # managers use the same variable names (same decision variables in the store)
@@ -611,6 +621,8 @@ def gen_history(rng, big: bool):
                 ops.append(gen_rich(rng, j, names[j]))
                 earlier.append(ops[-1])
     nops = rng.randint(1, 8) * nm
+    if long:       # as many operations as 10–20 ordinary histories over ONE store: the store is never reset in between
+        nops = rng.randint(60, 150)
     for _ in range(nops):
         i = rng.randrange(nm)
         ns = names[i]
@@ -804,6 +816,39 @@ def exhaustive_small(ctx: Ctx, reqs, todo) -> None:
     ctx.extra["exhaustive_3literal_constraints"] = cnt
 
 
+def large_cases(ctx: Ctx, reqs, todo) -> None:
+    """sizes beyond the interpreter's recursion limit"""
+    # at-most-one over 1200 / 1500 literals: must be encoded exactly (compared with the model, sampled assignments)
+    for n, k in ((1200, 3), (1500, 5)):
+        names = [f"def_g{j}" for j in range(n)]
+        h = {"nm": 1, "ops": [["nv", 0, v] for v in names] + [["he", 0, k, [[v, 1] for v in names]]], "bad": [False]}
+        run_history(ctx, h, reqs, todo, "large")
+    # a 1200-term inequality: documented behaviour = either encoded, or refused by the interpreter (RecursionError
+    # inside getrobdd, before anything is posted) leaving clauses, codified set and store untouched
+    reset_store()
+    m = SATManager()
+    lits = [m.newvar(j) for j in range(1200)]
+    e = pb.Expr()
+    for l in lits:
+        e = e + l
+    inp = {"large": "sum of 1200 literals >= 600"}
+    try:
+        m.pseudoboolencoding(e >= 600)
+        ctx.count("large-pb:encoded")
+    except RecursionError:
+        ctx.count("large-pb:RecursionError")
+        if m.clauses or m.codified or len(pb.memory) != 2:
+            ctx.spec_fail("refused_leaves_no_clauses", inp, {"clauses": len(m.clauses), "codified": len(m.codified),
+                                                              "store_nodes": len(pb.memory) - 2}, size=1200)
+    except Exception as ex:
+        ctx.spec_fail("operation-raised", inp, {"raised": repr(ex)[:200]}, size=1200)
+    prob = store_invariant_problem()
+    if prob:
+        ctx.spec_fail("store_invariant", inp, {"problem": prob}, size=1200)
+    ctx.case("large", "pb1200", nontrivial=True)
+    reset_store()
+
+
 def run(ctx: Ctx) -> None:
     ctx.rule = ("random posting histories: 1–3 managers sharing the ROBDD store (same or different variable names), 2–8 user "
                 "variables each (10–12 in 2.5% of the histories) registered through newvar before use (mostly up front, 6% of the ops "
@@ -812,11 +857,14 @@ def run(ctx: Ctx) -> None:
                 "incl. 0 and repeated variables, bound around the reachable range, six operator strings + invalid ones, both "
                 "constructions) / solve + value + evalexpr; store reset to [0,1] at the start of each history so that node ids "
                 "are comparable; non-trivial = contains a pseudo-Boolean or at-most-one posting; distinct = distinct request; "
-                "isclause stream: the same constraint generator")
+                "isclause stream: the same constraint generator; 5% of the inequalities carry area-like coefficients 1000…10000; "
+                "12 long histories (60–150 operations over one never-reset store); large stream: at-most-one over 1200 (k=3) and "
+                "1500 (k=5) literals, a 1200-term inequality")
     ctx.assumptions += [
         "user variable names do not start with 'robdd_' / 'aux_', contain no ',' and do not start with '-' (all names generated here are def_*)",
         "prioritize / setflipped (deprecated, outside the anchors) are never called: flipped is empty and ttable is the inverse of vtable",
         "constraints are posted through the public methods on Ineq objects built by the Expr algebra (normal form, C16)",
+        "size bound: getrobdd / constructrobdd / _codifyrobdd recurse once per level of the diagram; beyond the interpreter's recursion limit (default 1000 frames, i.e. about 990 distinct variables in one inequality) pseudoboolencoding raises RecursionError before posting anything (asserted by the `large` case); heuleencoding has no such bound once fixes/C07_heule_recursion.diff is applied (1200 / 1500 literals are run every time)",
     ]
     reqs, todo = [], []
     for s in getattr(ctx, "seed_inputs", []) or []:
@@ -827,6 +875,9 @@ def run(ctx: Ctx) -> None:
     n = ctx.n(1500, 25000)
     for j in range(n):
         run_history(ctx, gen_history(ctx.rng, big=(j % 40 == 7)), reqs, todo)
+    for _ in range(ctx.n(12, 150)):
+        run_history(ctx, gen_history(ctx.rng, big=False, long=True), reqs, todo, "long")
+    large_cases(ctx, reqs, todo)
     for _ in range(ctx.n(5000, 100000)):
         run_isclause(ctx, gen_isclause(ctx.rng), reqs, todo)
     if ctx.tier == "thorough" and ctx.budget <= 1.0:
